@@ -299,3 +299,25 @@ O("C04.resched", "C04", "h_C04.c", "h_C04_resched",
   ["resched", "unwind_till"], dfcc=True, replace=["instant_to_tstamp"], replace_status={"instant_to_tstamp": "discharged by C08.tstamp (value); here by an order-preserving table contract"},
   kind="bounded", bound="3 pending occurrences per call", unwind=6, replay=False, replay_note="callee replaced by contract",
   solver=["minisat", "kissat", "z3"], timeout={"quick": 600, "thorough": 1800})
+
+# ------------------------------------------------------------------ C11
+P("C11", level="proof",
+  level_text="Contracts of the queue's map operations on the real echsd.c: over every well-formed 16-slot table with symbolic keys, put_task_slot returns the key's home slot, which is empty or already holds the key, every other key keeps its task (witness key; also across a growth of the table, up to 256 slots), failure leaves the table unchanged; get_task is the map lookup; _eject_task1 removes the task only for its owner, exactly that task, and never touches another one. The behaviour over whole request histories follows by induction over these per-operation contracts (prose).",
+  level_note="Trusted: CBMC semantics, stubs for ev_periodic_stop / free_echs_task. Bounded: initial table of 16 slots (every slot well-formed is a universal hypothesis, established by an unwound harness loop), growth to <= 256 slots. Not covered: _inject_task1's credential checks (getpwuid), cmd_ical reply protocol, cmd_http listing, socket layer.",
+  not_covered=["_inject_task1 ownership/replace path (getpwuid, libev start)", "cmd_ical: one reply per instruction", "cmd_http uid gate (listing)", "growth beyond 256 slots (denial of service by colliding UIDs is a known weakness, not a map violation)"])
+E11 = dict(solver=["minisat", "kissat"], timeout={"quick": 900, "thorough": 3600}, unwind=18,
+           cbmc_flags=["--malloc-may-fail", "--malloc-fail-null"], **ECHSD_NATIVE)
+O("C11.put_slot.empty", ["C11", "C04"], "h_C11.c", "h_C11_put_slot",
+  "put_task_slot / get_task, home slot empty (symbolic key, other 15 slots symbolic): home slot returned, all other keys keep their task",
+  ["put_task_slot", "get_task", "get_task_slot"], kind="bounded", bound="table of 16 slots", **E11)
+O("C11.put_slot.same", ["C11", "C04"], "h_C11.c", "h_C11_put_slot",
+  "put_task_slot / get_task, key already present: its slot is returned, all other keys keep their task",
+  ["put_task_slot", "get_task", "get_task_slot"], kind="bounded", bound="table of 16 slots", defines=["-DHOME_SAME"], **E11)
+for t_, o_, n_ in ((0x15, 0x25, 32), (0x15, 0x35, 64), (0x15, 0x95, 256)):
+    O("C11.put_slot.grow%d" % n_, ["C11", "C04"], "h_C11.c", "h_C11_put_slot",
+      "put_task_slot on a collision (keys 0x%x / 0x%x, other 15 slots symbolic): the table grows to %d slots, the new key's home slot is empty, every other key keeps its task; allocation failure changes nothing" % (t_, o_, n_),
+      ["put_task_slot", "get_task", "get_task_slot"], kind="bounded", bound="table of 16 slots growing to %d, colliding pair concrete" % n_,
+      defines=["-DPAIR_T=0x%xULL" % t_, "-DPAIR_O=0x%xULL" % o_], **E11)
+O("C11.eject", "C11", "h_C11.c", "h_C11_eject",
+  "_eject_task1: unknown task -> failure; another user's task -> failure, task stays scheduled; own task -> stopped and removed; no other task touched",
+  ["_eject_task1", "free_task", "get_task"], kind="bounded", bound="table of 16 slots", **E11)
